@@ -518,6 +518,16 @@ class Enumerator:
                 # plain constants, and lookup tables (whose values may name
                 # functions of this module)
                 out[nm] = lit
+        # plain constants of other modules of the program, reached through
+        # the importing name (`opts._DEFAULT`)
+        for alias, target in getattr(finfo.module, 'imports', {}).items():
+            om = self.prog.modules.get(target) if isinstance(
+                target, str) else None
+            if om is None or alias in local or om is finfo.module:
+                continue
+            for nm, lit in self.prog.module_constants(om).items():
+                if isinstance(lit, ast.Constant):
+                    out['%s.%s' % (alias, nm)] = lit
         if finfo.cls is not None and finfo.params and not finfo.is_static:
             recv = finfo.params[0]
             cq = finfo.cls.qual
@@ -645,6 +655,16 @@ class Enumerator:
                 if self._is_record_ctor(a):
                     return False
                 d = self.defs.get(a.id) if isinstance(a, ast.Name) else a
+                if isinstance(d, ast.Call) and isinstance(
+                        d.func, ast.Attribute) and d.func.attr in (
+                            'split', 'rsplit', 'splitlines', 'partition',
+                            'rpartition', 'strip', 'lstrip', 'rstrip',
+                            'lower', 'upper', 'casefold', 'title', 'join',
+                            'format', 'replace', 'encode', 'decode',
+                            'items', 'keys', 'values', 'copy'):
+                    # the str / dict methods of these names answer with an
+                    # object
+                    return False
                 if isinstance(d, ast.Call) and isinstance(
                         d.func, ast.Name) and d.func.id in self.NEVER_NONE \
                         and self.prog.resolve(
@@ -2279,8 +2299,14 @@ class Enumerator:
             if isinstance(node.target, ast.Name):
                 cur = s.env.get(node.target.id,
                                 ast.Name(id=node.target.id, ctx=ast.Load()))
-                s.env[node.target.id] = ast.BinOp(left=cur, op=node.op,
-                                                  right=v)
+                if isinstance(node.op, ast.Add) and isinstance(
+                        cur, ast.Tuple) and isinstance(v, ast.Tuple):
+                    # (a, b) + (c,) is (a, b, c)
+                    s.env[node.target.id] = ast.Tuple(
+                        elts=list(cur.elts) + list(v.elts), ctx=ast.Load())
+                else:
+                    s.env[node.target.id] = ast.BinOp(left=cur, op=node.op,
+                                                      right=v)
             else:
                 tgt = subst(node.target, s.env)
                 self._ev(s, 'aug', tgt, line, value=v, raw=node.target)
@@ -2646,7 +2672,8 @@ class Enumerator:
             return None
         ge = node.iter
         if isinstance(ge, ast.Name):
-            v = st.env.get(ge.id)
+            v = self.defs.get(ge.id) if ge.id.startswith('SYM_') \
+                else st.env.get(ge.id)
             if isinstance(v, ast.Name) and v.id.startswith('SYM_'):
                 v = self.defs.get(v.id)
             ge = v
@@ -2674,8 +2701,66 @@ class Enumerator:
         loop._pv_fused = True
         return loop
 
+    def _desugar_chain(self, node, st):
+        """`for x in itertools.chain(A, B): BODY` is the loop over A followed
+        by the loop over B; `chain.from_iterable(E for s in S)` is the loop
+        over S of the loop over E.  (No break in BODY.)"""
+        it = node.iter
+        if isinstance(it, ast.Name):
+            v = self.defs.get(it.id) if it.id.startswith('SYM_') \
+                else st.env.get(it.id)
+            if isinstance(v, ast.Name) and v.id.startswith('SYM_'):
+                v = self.defs.get(v.id)
+            if isinstance(v, ast.Call):
+                it = v
+        if not isinstance(it, ast.Call) or node.orelse or any(
+                isinstance(b, ast.Break) for s_ in node.body
+                for b in ast.walk(s_)):
+            return None
+        try:
+            r = self.prog.resolve(self._stack[-1].module, it.func)
+        except Exception:
+            r = None
+        if r == 'ext:itertools.chain' and it.args and not it.keywords \
+                and not any(isinstance(a, ast.Starred) for a in it.args):
+            loops = []
+            for a in it.args:
+                lp = ast.For(target=node.target, iter=a, body=node.body,
+                             orelse=[])
+                ast.copy_location(lp, node)
+                loops.append(lp)
+            return loops
+        if r == 'ext:itertools.chain.from_iterable' and len(it.args) == 1 \
+                and not it.keywords:
+            a = it.args[0]
+            if isinstance(a, ast.Name):
+                v = st.env.get(a.id)
+                if isinstance(v, ast.Name) and v.id.startswith('SYM_'):
+                    v = self.defs.get(v.id)
+                a = v if isinstance(v, ast.AST) else a
+            if isinstance(a, (ast.GeneratorExp, ast.ListComp)):
+                inner = ast.For(target=node.target, iter=a.elt,
+                                body=node.body, orelse=[])
+                body = [inner]
+                for gi in reversed(a.generators):
+                    for c in reversed(gi.ifs):
+                        body = [ast.If(test=c, body=body, orelse=[])]
+                    body = [ast.For(target=gi.target, iter=gi.iter,
+                                    body=body, orelse=[])]
+                for b in ast.walk(body[0]):
+                    if isinstance(b, (ast.stmt, ast.expr)) and not hasattr(
+                            b, 'lineno'):
+                        b.lineno = b.end_lineno = node.lineno
+                        b.col_offset = b.end_col_offset = 0
+                return body
+        return None
+
     def _for(self, node, st, handlers):
         line = node.lineno
+        ch = self._desugar_chain(node, st)
+        if ch is not None:
+            yield from self.block(ch, st, handlers)
+            return
         fg = self._fuse_genexp(node, st)
         if fg is not None:
             yield from self._for(fg, st, handlers)
